@@ -61,7 +61,7 @@ def unresolvable(doc):
 def make_case(ctx, g):
     w = World()
     fails = []
-    b = DocBuilder(g, w, malformed=0.0, repeat_id=0.25)
+    b = DocBuilder(g, w, malformed=0.0, repeat_id=0.25, refused=0.15)
     d, scopes = b.random_document(n_records=g.rng.randint(1, 8))
     doc = w.conts[d]
     flags = set()
